@@ -34,3 +34,8 @@ def events(kind=None):
 def unconverged_explicit():
     """True if some solve since the last reset used an explicitly requested solver that did not report convergence."""
     return any(e.get("requested") is not None and e.get("status") not in CONVERGED for e in events("solve"))
+
+
+def raw():
+    m = _mod()
+    return [] if m is None else list(m.TRACE)
